@@ -361,7 +361,7 @@ def deviations(spec, quick_types=(), all_types=False):
 
 # Deviations below the message layer: what the peer puts where the compressed payload belongs (only
 # meaningful when compression was negotiated and is active for the packet).
-Z_DEVS = [("z", "garbage"), ("z", "trunc"), ("z", "empty"), ("z", "fresh-stream")]
+Z_DEVS = [("z", "garbage"), ("z", "trunc"), ("z", "empty"), ("z", "empty-block"), ("z", "fresh-stream")]
 
 
 def z_edit(kind, comp, payload):
@@ -372,6 +372,8 @@ def z_edit(kind, comp, payload):
         return comp[:len(comp) // 2]
     if kind == "empty":
         return b""
+    if kind == "empty-block":      # valid deflate data (an empty stored block) that inflates to a zero-length payload
+        return b"\x00\x00\x00\xff\xff"
     if kind == "fresh-stream":     # a complete new zlib stream (header .. Z_FINISH) in the middle of the old one
         import zlib
         return zlib.compress(payload)
